@@ -50,6 +50,8 @@ type Scenario struct {
 	UseFsize bool     `json:"use_fsize,omitempty"`
 	NoHooks  bool     `json:"no_hooks,omitempty"`
 	TimeoutMs int     `json:"timeout_ms,omitempty"`
+	RunAs    uint32   `json:"run_as,omitempty"`  // run the command as this (unprivileged) uid/gid; the tree is chown'ed to it
+	RoDirs   []string `json:"ro_dirs,omitempty"` // directories made read-only (0555) before the run and writable again after it
 	Meta     json.RawMessage `json:"meta,omitempty"` // passed through
 }
 
@@ -271,6 +273,24 @@ func runScenario(bin, workdir string, sc *Scenario) (*RunRec, error) {
 			return nil, err
 		}
 	}
+	if sc.RunAs != 0 {
+		os.Chmod(root, 0o755) // MkdirTemp creates it 0700
+		os.Lchown(root, int(sc.RunAs), int(sc.RunAs)) // strace writes its output there
+		filepath.Walk(tree, func(p string, info os.FileInfo, err error) error {
+			if err == nil {
+				os.Lchown(p, int(sc.RunAs), int(sc.RunAs))
+			}
+			return nil
+		})
+	}
+	for _, d := range sc.RoDirs {
+		os.Chmod(filepath.Join(tree, d), 0o555)
+	}
+	defer func() {
+		for _, d := range sc.RoDirs {
+			os.Chmod(filepath.Join(tree, d), 0o755)
+		}
+	}()
 	rec := &RunRec{ID: sc.ID, Root: tree, Meta: sc.Meta, Content: map[string]string{}}
 	if rec.Before, err = snapshot(tree, nil); err != nil {
 		return nil, err
@@ -308,6 +328,10 @@ func runScenario(bin, workdir string, sc *Scenario) (*RunRec, error) {
 	var so, se bytes.Buffer
 	cmd.Stdout, cmd.Stderr = &so, &se
 	cmd.Env = os.Environ()
+	if sc.RunAs != 0 {
+		cmd.SysProcAttr = &syscall.SysProcAttr{Credential: &syscall.Credential{Uid: sc.RunAs, Gid: sc.RunAs}}
+		cmd.Env = append(cmd.Env, "HOME=/nonexistent")
+	}
 	if !sc.NoHooks {
 		cmd.Env = append(cmd.Env, "GOPATCH_VERIF_TRACE="+filepath.Join(root, "events.ndjson"))
 	}
